@@ -13,4 +13,5 @@ package pipeline
 //@   option prelude=trav
 //@   option load=gdbi,gripql
 //@   nopanic
+//@   modifies alloc H.gripql. H.structpb. MapD. MapV. MapN SH. Box.
 //@   requires collab: graph != nil && t != nil
